@@ -236,18 +236,17 @@ func (p *FloatingIPPlugin) Release(r *ReleaseRequest) error {
 		return fmt.Errorf("pod %s_%s (uid %s) is running", k.Namespace, k.PodName, fip.PodUid)
 	}
 	glog.Infof("%s is not running, %s, %s", k.KeyInDB, reason, caller)
-	if p.cloudProvider != nil && fip.NodeName != "" {
+	if p.cloudProvider != nil {
 		// For tapp and sts pod, nodeName will be updated to empty after unassigning
-		glog.Infof("UnAssignIP nodeName %s, ip %s, key %s %s", fip.NodeName, r.IP.String(), k.KeyInDB, caller)
-		if err := p.cloudProviderUnAssignIP(&rpc.UnAssignIPRequest{
-			NodeName:  fip.NodeName,
-			IPAddress: fip.IP.String(),
-		}); err != nil {
-			return fmt.Errorf("UnAssignIP nodeName %s, ip %s: %v", fip.NodeName, fip.IP.String(), err)
-		}
-		// for tapp and sts pod, we need to clean its node attr and uid
-		if err := p.reserveIP(k.KeyInDB, k.KeyInDB, "after UnAssignIP "+caller); err != nil {
+		unassigned, err := p.unassignIPsOfKey(k.KeyInDB, caller)
+		if err != nil {
 			return err
+		}
+		if unassigned {
+			// for tapp and sts pod, we need to clean its node attr and uid
+			if err := p.reserveIP(k.KeyInDB, k.KeyInDB, "after UnAssignIP "+caller); err != nil {
+				return err
+			}
 		}
 	}
 	if err := p.ipam.Release(k.KeyInDB, r.IP); err != nil {
